@@ -407,27 +407,56 @@ def _build_message(S, mt, maddr, mhandle, err, data):
     return cls(address=maddr, handle=mhandle)
 
 
-def h16b_ops(a1: int, h1: int, a2: int, h2: int,
-             t0: int, ma0: int, mh0: int, e0: int, f0: bool,
-             t1: int, ma1: int, mh1: int, e1: int, f1: bool,
-             t2: int, ma2: int, mh2: int, e2: int, f2: bool,
-             t3: int, ma3: int, mh3: int, e3: int,
-             blob: bytes, fin: bool) -> bool:
+def _relevant_types(kinds):
+    """message types at least one of the two operations listens to (others are dropped by the
+    dispatch table before any Bluetooth code runs: C12's subject)"""
+    rel = {M_ERR, M_CONN}
+    for k in kinds:
+        if KIND_RESP[k] is not None:
+            rel.add(MSG_CLS.index(KIND_RESP[k]))
+        if k == K_NOTIFY:
+            rel.add(M_DATA)
+    return sorted(rel)
+
+
+def h16b_ops2(a1: int, h1: int, a2: int, h2: int,
+              t0: int, ma0: int, mh0: int, e0: int, f0: bool,
+              t1: int, ma1: int, mh1: int, e1: int,
+              blob: bytes, fin: bool) -> bool:
     """
-    pre: 0 <= a1 < A48 and 0 <= a2 < A48 and 0 <= ma0 < A48 and 0 <= ma1 < A48 and 0 <= ma2 < A48 and 0 <= ma3 < A48
-    pre: 0 <= h1 < H32 and 0 <= h2 < H32 and 0 <= mh0 < H32 and 0 <= mh1 < H32 and 0 <= mh2 < H32 and 0 <= mh3 < H32
-    pre: 0 <= e0 < 2**31 and 0 <= e1 < 2**31 and 0 <= e2 < 2**31 and 0 <= e3 < 2**31
-    pre: 0 <= t0 <= 5 and 0 <= t1 <= 5 and 0 <= t2 <= 5 and 0 <= t3 <= 5
+    pre: 0 <= a1 < A48 and 0 <= a2 < A48 and 0 <= ma0 < A48 and 0 <= ma1 < A48
+    pre: 0 <= h1 < H32 and 0 <= h2 < H32 and 0 <= mh0 < H32 and 0 <= mh1 < H32
+    pre: 0 <= e0 < 2**31 and 0 <= e1 < 2**31
+    pre: 0 <= t0 and 0 <= t1
     pre: len(blob) == 10
     post: _
     """
+    return _h16b(a1, h1, a2, h2, [(t0, ma0, mh0, e0, f0), (t1, ma1, mh1, e1, True)], blob, fin)
+
+
+def h16b_ops3(a1: int, h1: int, a2: int, h2: int,
+              t0: int, ma0: int, mh0: int, e0: int, f0: bool,
+              t1: int, ma1: int, mh1: int, e1: int, f1: bool,
+              t2: int, ma2: int, mh2: int, e2: int,
+              blob: bytes, fin: bool) -> bool:
+    """
+    pre: 0 <= a1 < A48 and 0 <= a2 < A48 and 0 <= ma0 < A48 and 0 <= ma1 < A48 and 0 <= ma2 < A48
+    pre: 0 <= h1 < H32 and 0 <= h2 < H32 and 0 <= mh0 < H32 and 0 <= mh1 < H32 and 0 <= mh2 < H32
+    pre: 0 <= e0 < 2**31 and 0 <= e1 < 2**31 and 0 <= e2 < 2**31
+    pre: 0 <= t0 and 0 <= t1 and 0 <= t2
+    pre: len(blob) == 10
+    post: _
+    """
+    return _h16b(a1, h1, a2, h2, [(t0, ma0, mh0, e0, f0), (t1, ma1, mh1, e1, f1), (t2, ma2, mh2, e2, True)], blob, fin)
+
+
+def _h16b(a1, h1, a2, h2, msgs_in, blob, fin) -> bool:
     track.entered()
     pbstub.reset_registry()
     kinds = shard_ints("KINDS", "0,2")
-    nmsg = shard_int("NMSG", 2)
-    first = shard_ints("FIRST", "")  # optional: admissible types of the first message (shard selector)
-    msgs_in = [(t0, ma0, mh0, e0, f0), (t1, ma1, mh1, e1, f1), (t2, ma2, mh2, e2, f2), (t3, ma3, mh3, e3, True)][:nmsg]
-    world = ClientWorld()
+    fixed = [shard_int("T0", -1), shard_int("T1", -1)]  # optional shard selectors: type of message 0 / 1
+    rel = _relevant_types(kinds)
+    world = ClientWorld(ordered_types=[S[c] for c in MSG_CLS], reverse=bool(shard_int("ORDER", 0)))
     try:
         with quiet_texts():
             loop, cli = world.loop, world.cli
@@ -451,10 +480,10 @@ def h16b_ops(a1: int, h1: int, a2: int, h2: int,
 
             n_sent0 = world.n_sent()
             for i, (t, maddr, mhandle, err, flush) in enumerate(msgs_in):
-                if i == 0 and first:
-                    mt = first[concretize(t, len(first) - 1)]
+                if i < 2 and fixed[i] >= 0:
+                    mt = fixed[i]
                 else:
-                    mt = concretize(t, 5)
+                    mt = rel[concretize(t, len(rel) - 1)]
                 msg = _build_message(S, mt, maddr, mhandle, err, blob[2 * i: 2 * i + 2])
                 for op in ops:
                     before = op.state
@@ -710,6 +739,26 @@ def h16c_connect_answered(addr: int, other: int, ev0: int, ev1: int, connected: 
 
 # ----------------------------------------------------------------------------------------------
 KIND_PAIRS_ALL = [(a, b) for a in range(5) for b in range(a, 5)]
+MSG_SHORT = ["read response", "write response", "notify response", "GATT error", "connection response", "notify data"]
+
+
+def _scenario_shards(pairs, nmsg, order_of, cond):
+    out = []
+    for idx, p in enumerate(pairs):
+        env = {"KINDS": f"{p[0]},{p[1]}"}
+        what = f"{KIND_NAMES[p[0]]} || {KIND_NAMES[p[1]]}"
+        if nmsg == 2:
+            env["ORDER"] = order_of(idx)
+            out.append({"fn": "h16b_ops2", "env": env, "cond_timeout": cond,
+                        "desc": f"{what}, 2 device messages, handler order {'reverse ' if env['ORDER'] else ''}registration"})
+        else:
+            rel = _relevant_types(p)
+            for t0 in rel:
+                for t1 in rel:
+                    e = dict(env, T0=t0, T1=t1, ORDER=order_of(idx))
+                    out.append({"fn": "h16b_ops3", "env": e, "cond_timeout": cond,
+                                "desc": f"{what}, 3 device messages starting with {MSG_SHORT[t0]}, {MSG_SHORT[t1]}"})
+    return out
 
 
 def shards(tier: str) -> list:
@@ -720,27 +769,16 @@ def shards(tier: str) -> list:
         {"fn": "h16a_connection_response", "cond_timeout": 120, "desc": "on_bluetooth_device_connection_response, future pending/resolved/failed"},
     ]
     if tier == "quick":
-        two = KIND_PAIRS_ALL
-        three = [(0, 2), (4, 4), (1, 4)]
-        four = []
+        out += _scenario_shards(KIND_PAIRS_ALL, 2, lambda i: i % 2, 500)
+        out += _scenario_shards([(0, 2)], 3, lambda i: 1, 600)
+        tds = [(30, 20)]
     else:
-        two = KIND_PAIRS_ALL + [(0, 5), (4, 5)]
-        three = KIND_PAIRS_ALL
-        four = [(0, 0), (0, 2), (2, 4), (4, 4)]
-    for p in two:
-        out.append({"fn": "h16b_ops", "env": {"KINDS": f"{p[0]},{p[1]}", "NMSG": 2}, "cond_timeout": 400,
-                    "desc": f"{KIND_NAMES[p[0]]} || {KIND_NAMES[p[1]]}, 2 device messages"})
-    for p in three:
-        for first in range(6):
-            out.append({"fn": "h16b_ops", "env": {"KINDS": f"{p[0]},{p[1]}", "NMSG": 3, "FIRST": str(first)}, "cond_timeout": 600,
-                        "desc": f"{KIND_NAMES[p[0]]} || {KIND_NAMES[p[1]]}, 3 device messages, first is {MSG_CLS[first].__name__}"})
-    for p in four:
-        for first in range(6):
-            out.append({"fn": "h16b_ops", "env": {"KINDS": f"{p[0]},{p[1]}", "NMSG": 4, "FIRST": str(first)}, "cond_timeout": 1500,
-                        "desc": f"{KIND_NAMES[p[0]]} || {KIND_NAMES[p[1]]}, 4 device messages, first is {MSG_CLS[first].__name__}"})
-    tds = [(30, 20)] if tier == "quick" else [(30, 20), (5, 50), (10, 10)]
+        out += _scenario_shards(KIND_PAIRS_ALL + [(0, 5), (4, 5), (5, 5)], 2, lambda i: 0, 600)
+        out += _scenario_shards(KIND_PAIRS_ALL, 2, lambda i: 1, 600)
+        out += _scenario_shards([(0, 0), (0, 2), (0, 4), (1, 3), (2, 2), (2, 4), (3, 4), (4, 4)], 3, lambda i: i % 2, 900)
+        tds = [(30, 20), (5, 50), (10, 10)]
     for t, d in tds:
-        out.append({"fn": "h16c_connect_timeout", "env": {"T": t, "D": d, "NPRE": 2, "NPOST": 2}, "cond_timeout": 400,
+        out.append({"fn": "h16c_connect_timeout", "env": {"T": t, "D": d, "NPRE": 2, "NPOST": 2}, "cond_timeout": 500,
                     "desc": f"bluetooth_device_connect unanswered, timeout={t}, disconnect_timeout={d}"})
         out.append({"fn": "h16c_connect_answered", "env": {"T": t, "D": d}, "cond_timeout": 300,
                     "desc": "bluetooth_device_connect answered for its address (foreign traffic before / same turn)"})
@@ -748,11 +786,13 @@ def shards(tier: str) -> list:
 
 
 BOUNDS = {
-    "quick": "filters: addresses < 2^48, handles < 2^32 fully symbolic. Scenario: 2 concurrent operations (all 15 unordered pairs of the 5 awaiting kinds) x 2 device messages; 3 pairs x 3 messages; message type in {read, write, notify response, GATT error, connection response, notify data}, address/handle/error/data symbolic, same-turn or separate-turn delivery; connect: timeout 30 / disconnect_timeout 20, <= 2 foreign messages before and <= 2 messages after the timeout",
-    "thorough": "as quick; 3 messages for all 15 pairs, 4 messages for 4 pairs, write without response as a kind, three (timeout, disconnect_timeout) pairs",
+    "quick": "filters: addresses < 2^48, handles < 2^32 fully symbolic. Scenario: 2 concurrent operations (all 15 unordered pairs of the 5 awaiting kinds) x 2 device messages, and read || write x 3 messages; message type = any type one of the two operations listens to (its response type, GATT error, connection response, notify data), address/handle/error/data symbolic, each message delivered in the same loop turn as the previous one or in a later turn; handlers of one type run in registration order or reverse (alternating per shard); connect: timeout 30 / disconnect_timeout 20, <= 2 foreign messages before and <= 2 messages after the timeout",
+    "thorough": "as quick; 2 messages: all pairs in both handler orders plus write-without-response pairs; 3 messages for 8 pairs; three (timeout, disconnect_timeout) pairs",
 }
 OUTSIDE = [
-    "more than 2 concurrent operations, more device messages than stated",
+    "more than 2 concurrent operations, more than 3 device messages (the per-message handling depends only on which operations are still unresolved / not yet resumed; every such state is reached within 2 messages)",
+    "message types nobody listens to (dropped by the dispatch table: C12)",
+    "iteration orders of the per-type handler set other than registration order and its reverse",
     "caller cancellation of an operation (not in the statement's quantifier)",
     "bluetooth_gatt_get_services / pair / unpair / clear_cache (same filters, covered by H16a only)",
     "texts of error messages (formatting helpers replaced, see assumptions)",
